@@ -157,7 +157,12 @@ where
             //expand the map
             self.data.resize_with(x.as_usize() + 1, Default::default);
         }
-        self.data[x.as_usize()].push(y);
+        //an item that relates to x along several paths (e.g. an annotation that uses the same
+        //data twice, or a complex selector with two subselectors on the same target) is indexed once;
+        //all relations of one item are inserted consecutively so a duplicate is always the last entry
+        if self.data[x.as_usize()].last() != Some(&y) {
+            self.data[x.as_usize()].push(y);
+        }
     }
 
     /// Remove a relation from the map
@@ -271,7 +276,11 @@ where
     /// Insert a relation into the map
     pub fn insert(&mut self, x: A, y: B) {
         if self.data.contains_key(&x) {
-            self.data.get_mut(&x).unwrap().push(y);
+            let values = self.data.get_mut(&x).unwrap();
+            if values.last() != Some(&y) {
+                //(no duplicates, see RelationMap::insert)
+                values.push(y);
+            }
         } else {
             self.data.insert(x, vec![y]);
         }
